@@ -130,6 +130,11 @@ def disc_arg_shape(call, fn, fnode=None):
                         and isinstance(n.value, ast.Call) and callee_name(n.value) in ("NetworkService", "_get_ns_by_id"):
                     return "ifsOfFreshHandle"
             return "ifsOfLookedUp"
+        # self._get_component_by_id(<resolved id>).interface_list / Component(name=.., node_id=.., topo=..).interface_list: the interface
+        # list of the component's handle, as self.components[name].interface_list is (the plan works on ids: which component a NAME
+        # denotes is Model/RemoveNames.lean's, hand-mirrored and compared by the by-name requests of the correspondence)
+        if isinstance(v, ast.Call) and callee_name(v) in ("_get_component_by_id", "Component"):
+            return "ifsComponentsDict"
         # NetworkService(name=.., node_id=.., topo=..).interface_list / self._get_ns_by_id(..).interface_list : a fresh handle
         if isinstance(v, ast.Call) and callee_name(v) in ("NetworkService", "_get_ns_by_id", "_get_ns_by_name"):
             return "ifsOfFreshHandle"
